@@ -192,6 +192,111 @@ CLAIMED["C16"] = dict(
     technique="constant-table analysis with exact rational geometry; algebraic value numbering for symbolic coordinates",
 )
 
+CLAIMED["C07"] = dict(
+    category="proof",
+    text="Flow analysis (abstract interpretation of newtonrhapson's AST with three-valued booleans and the range-loop fact, all paths, any "
+    "maxiter): success is True at every return; with success True no raise is reachable after the loop; loop exhaustion, zero iterations "
+    "and NaN norms end in a raise; the residual handed to check() and stored in the result is re-assembled after the last update; "
+    "update_statevars is only called under a guard implying success and nothing else in the package assigns results.statevars outside "
+    "constructors. Evaluation of check() on symbolic data: fnorm = |f[dof1]| / (eps + |f[dof0]|), success = fnorm < ftol and xnorm < xtol. "
+    "Scripted abstract runs of the real Newton loop (field containers, link, solve/partition, update, check all from source; every "
+    "convergence pattern up to 3 iterations, maxiter 0, NaN): each linear solve receives K[dof1][:,dof1] and -f[dof1] - K[dof1][:,dof0] "
+    "(ext0 - u0) at the current iterate with multipliers applied, the increment is ext0 - u0 on prescribed unknowns so the returned "
+    "field carries exactly the prescribed values, no entry is left unwritten, the returned residual is the one assembled at the returned "
+    "field, state is committed iff converged, non-convergence raises.",
+    design_ref="DESIGN.md section 3, C07",
+    note="Trusted: spsolve solves what it is given. Not decided: sizes of residuals as numbers, one-step convergence of linear problems.",
+    technique="flow analysis (abstract interpretation on the function AST) + algebraic value numbering of scripted runs",
+)
+CLAIMED["C08"] = dict(
+    category="proof",
+    text="Numbering formulas with symbolic point ids (cai == dim*cells+i, indices.dof == dim*p+i, Boundary.dof == dof[mask]); FieldContainer "
+    "offsets and all eight arithmetic operators / math.values split the global vector at the offsets in container order; dof.partition and "
+    "dof.apply evaluated from source with felupe's Boundary objects on 2D/3D lattice meshes (a point without cells, mixed container) for "
+    "an exhaustive family of boundary dictionaries (predicates, and/or, every skip tuple, point and dof masks, scalar and array values, "
+    "overlaps on both fields) against the set semantics; symmetry / uniaxial / biaxial / shear for every discrete argument combination "
+    "(580+ configurations) against the mechanics table.",
+    design_ref="DESIGN.md section 3, C08",
+    note="The load-case table follows the code's, the mechanics' and every caller's reading of `symmetry` (a plane fixes its normal "
+    "component); the table in that function's docstring lists the complemented skip tuples (documentation inconsistency, recorded "
+    "in DESIGN.md, not enforced). Coordinate predicates on inexact runtime coordinates are not decided.",
+    technique="exhaustive enumeration of discrete configurations on small lattice meshes (source evaluated, not run) + symbolic point ids",
+)
+CLAIMED["C09"] = dict(
+    category="other",
+    text="Narrow structural claim: the material-curve ansatz / root function / reported force of ViewMaterial and "
+    "ViewMaterialIncompressible (uniaxial, planar, biaxial; with and without state variables, increments threaded in order) and the "
+    "characteristic-curve callback (x = displacement of the first boundary point, y = sum over all boundary points of the first field's "
+    "residual rows) are decided by evaluating the source with recording stand-ins.",
+    design_ref="DESIGN.md section 3, C09",
+    note="That the computed field of a patch test is the affine map, and that the reaction equals the analytic stress times the area, are "
+    "end-to-end numerical statements (Newton convergence on concrete meshes) and are NOT decided by this family; their ingredients are "
+    "C02, C04-C08, C14, C15.",
+    technique="algebraic value numbering with recording summaries of the material and the root finder",
+)
+CLAIMED["C14"] = dict(
+    category="proof",
+    text="On the symbolic micro-instance with a basis that is a partition of unity (the fact C04/C06 prove for every region): internal "
+    "nodal forces of a solid body with an arbitrary hyperelastic energy sum to zero per component (axial only when axisymmetric) for 3D, "
+    "plane strain, axisymmetric and 2D fields; with a region built by Region.reload on a symbolic cell and a material with symmetric "
+    "Kirchhoff stress the total moment vanishes; body force / gravity vectors are the value form of scale * values on the first field and "
+    "sum to scale * values * volume; point loads hold exactly the given values (times 2 pi R when axisymmetric) in the right rows of the "
+    "right field; follower pressure == sum N_a (-p) cof(F) N dA with multiplier -1; the mass matrix is a symmetric Gram matrix carrying "
+    "rho * volume per direction; multi-point constraint forces are self-equilibrated.",
+    design_ref="DESIGN.md section 3, C14",
+    note="Trusted: C04.O4/C06.O1, C11.O1 (P F^T symmetric per material), C02. Resultants as numbers on a concrete mesh are not decided.",
+    technique="algebraic value numbering on a symbolic micro-instance; resultants as identities",
+)
+CLAIMED["C15"] = dict(
+    category="proof",
+    text="Step.generate (interpreted lazily as a generator) drives the real newtonrhapson on symbolic data for every convergence history of "
+    "3 substeps x up to 2 Newton iterations (19 histories, with and without a start field) and, with a scripted solver stub, every "
+    "pattern of reported success/failure: ramp value i is applied to every ramped item before partition/apply/Newton of substep i, a "
+    "result is yielded iff the substep converged, nothing is started after a failure, substep i+1 starts from the values substep i "
+    "converged on, state is committed exactly at each converged evaluation. Flow rule: every yield is reached only with res.success "
+    "true and no solve starts once the stop flag is set. SolidBody writes trial state only; committed state arrays handed to materials "
+    "are unchanged; pseudo-elastic softening stores max(W, old) with eta == 1 on the primary path; the radial return satisfies the yield "
+    "condition after the update and increases the equivalent plastic strain by sqrt(2/3) dgamma, dgamma = f / (2 mu + 2K/3).",
+    design_ref="DESIGN.md section 3, C15",
+    note="Histories are enumerated exhaustively up to the stated bounds on the real control code with abstract data; path independence of "
+    "converged results for elastic materials is a convergence statement and not decided.",
+    technique="bounded exhaustive enumeration of convergence histories on the source (abstract data), flow rule, algebraic value numbering",
+)
+CLAIMED["C18"] = dict(
+    category="other",
+    text="Structural clauses: the pencil handed to the eigen-solver is built correctly (K and M summed over all items, resized to the global "
+    "shape, K with the item multiplier, both sliced with the same free unknowns, sigma forwarded), extracted modes are scattered to the "
+    "free unknowns of zeroed fields (vanish on prescribed unknowns), frequency = sqrt(lambda)/(2 pi), inplace semantics, and the mass "
+    "matrix of both solid-body classes is the symmetric Gram matrix of the first field (also on axisymmetric fields).",
+    design_ref="DESIGN.md section 3, C18",
+    note="That each returned pair satisfies K v = lambda M v, the number of zero-frequency modes and rigid-motion invariance are properties "
+    "of eigsh's output on runtime matrices: NOT decided by this family.",
+    technique="algebraic value numbering with a recording eigen-solver",
+)
+CLAIMED["C19"] = dict(
+    category="proof",
+    text="Kirchhoff = P F^T and Cauchy = P F^T / det F in all three implementations (two solid bodies, tools.save) for an arbitrary stress; "
+    "per-cell view data are quadrature-point means of the named quantity; tools.force / tools.moment sum nodal forces and (X+u-c) x f "
+    "over the boundary's points of the first field's block; topoints = mean over attached cells (weighted quadrature mean first with "
+    "mean=True); project builds (int N_a N_b dV) x = int N_a values dV with the region's dV and has fields of the region's space as "
+    "fixed points; the extrapolation identity for Quad / Hexahedron with the order-1 rule.",
+    design_ref="DESIGN.md section 3, C19",
+    note="Trusted: spsolve; C02, C04, C05. Numerical solves and project on templates with an insufficient rule (runtime check) are not decided.",
+    technique="algebraic value numbering on a symbolic micro-instance",
+)
+CLAIMED["C20"] = dict(
+    category="other",
+    text="Structural clauses against a recording summary of meshio: per converged substep exactly one frame, after the callback and before "
+    "the next solve, with time = frames written so far and data callbacks receiving field=substep.x; nothing for a substep that did not "
+    "converge (all 16 success patterns of 2 steps x 2 substeps); default point data = first field's displacement padded to 3 columns, "
+    "default per-cell deformation gradient = quadrature mean; tools.save passes displacements and the first force block through "
+    "unchanged; Mesh.write pads to 3 columns and read cuts to dim, cells and type passed through for all 12 cell types; a mesh container "
+    "shares one point array among its meshes after construction, append and merge.",
+    design_ref="DESIGN.md section 3, C20",
+    note="Byte-level round-trip fidelity is meshio's behaviour at run time: NOT decided by this family.",
+    technique="evaluation of the job / mesh code from source against a recording summary of meshio (scripted solver outcomes)",
+)
+
 NOT_APPLICABLE = {}
 
 TODO_REASON = "check not built yet in this session (static rule designed in DESIGN.md; will be claimed once its checker is committed)"
